@@ -216,7 +216,7 @@ def is_grouped(ax):
 def grp(ax):
     """grouped, or a plain Axis holding tuple labels (what a freshly constructed equivalent of a grouped axis is)"""
     if is_grouped(ax):
-        return True
+        return len(ax.axes) > 1          # a one-member group carries its member's plain labels: treated as a plain axis
     v = ax.values
     return v.dtype.kind == "O" and len(v) > 0 and isinstance(v[0], tuple)
 
